@@ -20,3 +20,4 @@ void h_page_retire(void) {
   g_bin = (mi_page_is_in_full(g_fpage) ? MI_BIN_FULL : (mi_page_is_huge(g_fpage) ? MI_BIN_HUGE : _mi_bin(g_fpage->block_size)));
   _mi_page_retire(g_fpage); VC_REACH();
 }
+void h_page_abandon(void) { build(); g_spa_n = 0; mi_page_queue_t* pq = &g_fheap->pages[vc_nondet_size("bin") % (MI_BIN_FULL + 1)]; _mi_page_abandon(g_fpage, pq); VC_REACH(); }
